@@ -112,7 +112,7 @@ def case_st(draw):
     data = s2b(s["stream"])
     n = len(data)
     cuts = sorted(set(draw(st.lists(st.integers(1, max(1, n - 1)), max_size=8)))) if n > 1 and draw(st.integers(0, 2)) else []
-    term = draw(st.sampled_from(["clean", "clean", "clean", "fin", "reset", "stall"]))
+    term = draw(st.sampled_from(["clean", "clean", "clean", "fin", "reset", "stall", "trickle"]))
     term_at = n if draw(st.integers(0, 3)) else draw(st.integers(0, n))
     return {"stream": s["stream"], "labels": s["labels"], "cuts": cuts, "term": term, "term_at": term_at,
             "op": draw(st.sampled_from(["get", "get", "upload"]))}
@@ -266,7 +266,7 @@ def run_proto(case: dict):
     setup_logging()
     _patch_cap()
     D = s2b(case["stream"])[: case["term_at"]]
-    exp = reference(D, case["term"])
+    exp = reference(D, "stall" if case["term"] == "trickle" else case["term"])
     outcome, tr = _run_proto(case, case["cuts"])
     if vloop.loop_errors():
         err = vloop.loop_errors()[0]
@@ -293,7 +293,7 @@ def run_client(case: dict):
 
     data = s2b(case["stream"])
     D = data[: case["term_at"]]
-    exp = reference(D, case["term"])
+    exp = reference(D, "stall" if case["term"] == "trickle" else case["term"])
     TIMEOUT = 30.0
 
     async def scenario(loop):
@@ -305,7 +305,14 @@ def run_client(case: dict):
             script.append(("sleep", 0.01))
         t_close = [None]
         script.append(("mark",))
-        script.append({"clean": ("close",), "fin": ("fin",), "reset": ("reset",), "stall": ("stall",)}[case["term"]])
+        if case["term"] == "trickle":
+            # never finishes: one more byte every 10 s for a long time (the timeout is 30 s)
+            for _ in range(40):
+                script.append(("sleep", 10.0))
+                script.append(("send", b"."))
+            script.append(("stall",))
+        else:
+            script.append({"clean": ("close",), "fin": ("fin",), "reset": ("reset",), "stall": ("stall",)}[case["term"]])
         peer = memnet.ScriptedPeer(certs.get("ec-a"), script)
         net.add("h", 1965, peer)
         client = GeminiClient(timeout=TIMEOUT, trust_on_first_use=False)
@@ -336,7 +343,7 @@ def run_client(case: dict):
     if v.kind == "violation":
         return v
     # promptness: once the peer has closed/reset (or the client itself may stop: non-2x header, cap, parse error)
-    if case["term"] != "stall" and since_close is not None and since_close > 1.0:
+    if case["term"] not in ("stall", "trickle") and since_close is not None and since_close > 1.0:
         return viol("not-prompt-after-peer-close", f"call ended {since_close:.1f} virtual s after the peer closed; outcome {outcome}", **info)
     if dur > 2 * TIMEOUT + 1:
         return viol("timeout-too-late", f"{dur}", **info)
